@@ -334,6 +334,172 @@ def r17_5(ctx, rep):
            path=cfg.describe(w) if w else "")
 
 
+# -- R17.6: canonical lookup, decided by interpreting canonical_signed over the finite case space --------------------------------
+class _Undecided(Exception):
+    pass
+
+
+def _lookup_cases(fn, map_attr):
+    """Interprets `canonical_signed(a)` abstractly for a = +v / -v, v known to the map or not, stored sign s in {1,-1} (the map is
+    symmetric: it holds (c, s) for +v and (c, -s) for -v — R17.1).  Values: ("name", base, negative), ints, bools, tuples."""
+    a = fn.args.args[1].arg
+    results = {}
+
+    class Ret(Exception):
+        def __init__(self, v):
+            self.v = v
+
+    def ev(e, env, case):
+        neg, found, s = case
+        if isinstance(e, ast.Constant):
+            return e.value
+        if isinstance(e, ast.Name):
+            if e.id in env:
+                return env[e.id]
+            raise _Undecided("name " + e.id)
+        if isinstance(e, ast.Tuple):
+            return tuple(ev(x, env, case) for x in e.elts)
+        if isinstance(e, ast.UnaryOp):
+            v = ev(e.operand, env, case)
+            if isinstance(e.op, ast.USub) and isinstance(v, int):
+                return -v
+            if isinstance(e.op, ast.Not):
+                return not v
+            raise _Undecided(norm(e))
+        if isinstance(e, ast.BinOp) and isinstance(e.op, ast.Mult):
+            l, r = ev(e.left, env, case), ev(e.right, env, case)
+            if isinstance(l, int) and isinstance(r, int):
+                return l * r
+            raise _Undecided(norm(e))
+        if isinstance(e, ast.BinOp) and isinstance(e.op, ast.Add):
+            l, r = ev(e.left, env, case), ev(e.right, env, case)
+            if l == "-" and isinstance(r, tuple) and r[0] == "name" and not r[2]:
+                return ("name", r[1], True)
+            raise _Undecided(norm(e))
+        if isinstance(e, ast.IfExp):
+            return ev(e.body, env, case) if ev(e.test, env, case) else ev(e.orelse, env, case)
+        if isinstance(e, ast.BoolOp):
+            vs = [ev(x, env, case) for x in e.values]
+            return all(vs) if isinstance(e.op, ast.And) else any(vs)
+        if isinstance(e, ast.Subscript):
+            base = e.value
+            if isinstance(base, ast.Attribute) and is_name(base.value, "self") and base.attr == map_attr:
+                k = ev(e.slice, env, case)
+                if not (isinstance(k, tuple) and k[0] == "name" and k[1] == "v") or not found:
+                    raise _Undecided("map lookup of an absent key")
+                return (("name", "c", False), s if not k[2] else -s)
+            v = ev(base, env, case)
+            if isinstance(v, tuple) and v and v[0] == "name":
+                sl = e.slice
+                if isinstance(sl, ast.Slice) and sl.upper is None and isinstance(sl.lower, ast.Constant) and sl.lower.value == 1:
+                    if not v[2]:
+                        return ("name", v[1] + "<first character cut off>", False)
+                    return ("name", v[1], False)
+                if isinstance(sl, ast.Constant) and sl.value == 0:
+                    return "-" if v[2] else "<letter>"
+            if isinstance(v, tuple) and isinstance(e.slice, ast.Constant) and isinstance(e.slice.value, int):
+                return v[e.slice.value]
+            raise _Undecided(norm(e))
+        if isinstance(e, ast.Compare) and len(e.ops) == 1:
+            op = e.ops[0]
+            if isinstance(op, (ast.In, ast.NotIn)) and isinstance(e.comparators[0], ast.Attribute) and e.comparators[0].attr == map_attr:
+                k = ev(e.left, env, case)
+                r = bool(found) and isinstance(k, tuple) and k[0] == "name" and k[1] == "v"
+                return r if isinstance(op, ast.In) else not r
+            l, r = ev(e.left, env, case), ev(e.comparators[0], env, case)
+            if isinstance(op, ast.Eq):
+                return l == r
+            if isinstance(op, ast.NotEq):
+                return l != r
+            raise _Undecided(norm(e))
+        if isinstance(e, ast.Call):
+            cn = (call_name(e) or "")
+            if cn.endswith("is_negative") and e.args:
+                v = ev(e.args[0], env, case)
+                if isinstance(v, tuple) and v[0] == "name":
+                    return v[2]
+            if cn.endswith("startswith") and isinstance(e.func, ast.Attribute) and e.args and isinstance(e.args[0], ast.Constant) and e.args[0].value == "-":
+                v = ev(e.func.value, env, case)
+                if isinstance(v, tuple) and v[0] == "name":
+                    return v[2]
+            if cn.endswith("toggle_sign") and e.args:
+                v = ev(e.args[0], env, case)
+                if isinstance(v, tuple) and v[0] == "name":
+                    return ("name", v[1], not v[2])
+            if cn.endswith(map_attr + ".get") and e.args:
+                k = ev(e.args[0], env, case)
+                if found and isinstance(k, tuple) and k[0] == "name" and k[1] == "v":
+                    return (("name", "c", False), s if not k[2] else -s)
+                return ev(e.args[1], env, case) if len(e.args) > 1 else None
+            raise _Undecided(norm(e))
+        raise _Undecided(norm(e))
+
+    def run(stmts, env, case):
+        for st in stmts:
+            if isinstance(st, ast.Expr) and isinstance(st.value, ast.Constant):
+                continue
+            if isinstance(st, ast.Return):
+                raise Ret(ev(st.value, env, case) if st.value is not None else None)
+            if isinstance(st, ast.If):
+                run(st.body if ev(st.test, env, case) else st.orelse, env, case)
+            elif isinstance(st, ast.Assign) and len(st.targets) == 1:
+                v = ev(st.value, env, case)
+                t = st.targets[0]
+                if isinstance(t, ast.Name):
+                    env[t.id] = v
+                elif isinstance(t, ast.Tuple) and isinstance(v, tuple) and len(v) == len(t.elts) and all(isinstance(x, ast.Name) for x in t.elts):
+                    for x, vv in zip(t.elts, v):
+                        env[x.id] = vv
+                else:
+                    raise _Undecided(norm(st))
+            else:
+                raise _Undecided(norm(st)[:60])
+
+    for neg in (False, True):
+        for found in (False, True):
+            for s in ((1, -1) if found else (1,)):
+                case = (neg, found, s)
+                env = {a: ("name", "v", neg)}
+                try:
+                    run(fn.body, env, case)
+                    results[case] = None
+                except Ret as r:
+                    results[case] = r.v
+    return results
+
+
+@SPEC.rule(
+    "R17.6",
+    "canonical_signed gives every member the class's canonical name with the member's own sign: interpreted over the finite case "
+    "space (argument +v or -v; v known to the map with stored sign +1 or -1, or unknown) the method returns (c, s) resp. (c, -s) for a "
+    "known name and (v, +1) resp. (v, -1) for an unknown one — whichever way the lookup is written (direct by the signed name, or by "
+    "the plain name with the sign re-applied)",
+)
+def r17_6(ctx, rep):
+    R = "R17.6"
+    ms = ctx.methods(AR, CLS, R)
+    fn = ms.get("canonical_signed")
+    if fn is None:
+        raise MechanismMissing(R, "AliasRelation.canonical_signed not found")
+    site = "%s:%s.canonical_signed" % (AR, CLS)
+    map_attr = next((x.attr for x in ast.walk(fn) if isinstance(x, ast.Attribute) and is_name(x.value, "self") and "map" in x.attr), None)
+    if map_attr is None:
+        raise MechanismMissing(R, "canonical_signed does not consult the canonical map")
+    try:
+        res = _lookup_cases(fn, map_attr)
+    except _Undecided as e:
+        raise MechanismMissing(R, "canonical_signed uses a construct the case interpreter does not know (%s)" % e)
+    bad = []
+    for (neg, found, s), got in sorted(res.items()):
+        want = (("name", "c", False), -s if neg else s) if found else (("name", "v", False), -1 if neg else 1)
+        if got != want:
+            arg = ("-v" if neg else "v") + (", v stored with sign %+d" % s if found else ", v unknown")
+            show = lambda t: "(%s, %s)" % (("-" if t[0][2] else "") + t[0][1], t[1]) if isinstance(t, tuple) and len(t) == 2 and isinstance(t[0], tuple) else repr(t)
+            bad.append("canonical_signed(%s) = %s, expected %s" % (arg, show(got), show(want)))
+    rep.ob(R, site, "every case of the lookup returns the canonical name with the argument's own sign (%d cases)" % len(res), not bad,
+           "; ".join(bad[:4]) + " — members of one class then disagree about their relative sign, and the next add() that consults the lookup stores the wrong signs for the whole class")
+
+
 # -- seeded variants ---------------------------------------------------------
 from ._mut import delete_stmt_where, replace_in_func  # noqa: E402
 
@@ -430,3 +596,15 @@ def _m_rawadd(mod):
         return False
 
     return mod if replace_in_func(mod, "AliasRelation.add", edit) else None
+
+
+@SPEC.mutant("lookup by the plain name drops the stored sign for negated arguments", AR, "R17.6", "every case of the lookup")
+def _m_lookup_sign(mod):
+    def edit(fn):
+        fn.body = ast.parse(
+            "negative = a[0] == '-'\nname = a[1:] if negative else a\n"
+            "if name in self._canonical_variables_map:\n    canonical, sign = self._canonical_variables_map[name]\nelse:\n    canonical, sign = name, 1\n"
+            "return canonical, -1 if negative else sign").body
+        return True
+
+    return mod if replace_in_func(mod, "AliasRelation.canonical_signed", edit) else None
